@@ -18,10 +18,11 @@ from vmon.props import c11
 
 LEVEL = "exploration"
 SHARDS = {"quick": 16, "thorough": 16}
-MUST = ["write.twice", "cycle.g2g3", "namespace.checked", "crossprocess.documents", "immutability.snapshots", "route.xml", "route.objects",
+MUST = ["write.twice", "write.after_other_writes", "history.variant_headers", "cycle.g2g3", "namespace.checked", "crossprocess.documents", "immutability.snapshots", "route.xml", "route.objects",
         "style.prefix", "style.default", "style.none"]
 RULE = ("case = generated definition (both build routes; namespace conventions prefix xtce / custom prefix / default "
-        "namespace / none) with a fixed header date: written twice in-process, written in two further processes with "
+        "namespace / none) with a fixed header date: written twice in-process and again after other definitions (with / without a SpaceSystem name, other header "
+        "values, other namespace styles) were written in between, written in two further processes with "
         "PYTHONHASHSEED 1 and 4242, cycled write->load->write->load->write; checks: byte identity, G2==G3, "
         "well-formedness + namespace of every element, no write to the definition during serialization. "
         "distinct_nontrivial = distinct (route, namespace style, document feature set) signatures; a header-only "
@@ -68,9 +69,16 @@ def run(ctx):
     c11.arm_setattr(ctx)
     ids = [i for i in range(ctx.size(256, 20000)) if ctx.mine(i)]
     mine = {}
+    pool = []     # (tag, definition, its first serialization): re-written later, after other definitions have been written
     for i in ids:
         rng = random.Random(f"C15/{ctx.seed}/doc/{i}")
         doc = gen.gen_document(rng)
+        if i % 4 == 3:
+            # documents differ in their SpaceSystem name / header too: no name at all, other names, other header values
+            import dataclasses
+            doc = dataclasses.replace(doc, system_name=(None, "S-%d" % i, "")[(i // 4) % 3], version="%d.%d" % (i % 7, i % 3),
+                                      validation=("Working", "Draft", "Unknown")[i % 3])
+            ctx.count("history.variant_headers")
         style = STYLES[i % len(STYLES)]
         ctx.count(f"style.{style[0]}")
         from vmon.props.c09 import features
@@ -94,7 +102,9 @@ def run(ctx):
                 continue
             ctx.count("write.twice")
             G1 = w1.value
-            mine[f"{i}/{route}"] = hashlib.sha256(G1).hexdigest()
+            if i % 4 != 3:
+                mine[f"{i}/{route}"] = hashlib.sha256(G1).hexdigest()
+            pool.append((f"{i}/{route}", D, G1))
             if w2.exc is not None or w2.value != G1:
                 ctx.violation(f"{route}/nondeterministic/same-process", "writing the same definition twice gave different bytes", wit)
             # well-formed + namespaces
@@ -123,6 +133,9 @@ def run(ctx):
                 ctx.violation(f"{route}/cycle/g2-ne-g3", "the second and third generation documents differ", dict(wit, first_diff=first_diff(g2.value, g3.value)))
         if i < 2:
             ctx.sample({"doc": i, "style": style, "G1_sha256": mine.get(f"{i}/xml"), "features": fs[:8]})
+        if len(pool) >= 24 or i == ids[-1]:
+            write_history(ctx, pool, random.Random(f"C15/{ctx.seed}/history/{i}"))
+            pool.clear()
     # ---- the documents bundled with the repository (fixed date assigned through the public attribute) ---------------------
     bundled(ctx)
     # ---- cross-process determinism -----------------------------------------------------------------------------------
@@ -138,6 +151,22 @@ def run(ctx):
             ctx.count("crossprocess.documents")
             if other.get(k) != v:
                 ctx.violation(f"{k.split('/')[1]}/nondeterministic/cross-process", f"document {k}: digest differs under PYTHONHASHSEED={hs}", {"doc": k, "hashseed": hs})
+
+
+def write_history(ctx, pool, rng):
+    """W(D) must give the same bytes whatever was written in between: every pooled definition is written again in
+    reversed and in shuffled order (definitions with and without a name, of all namespace styles, interleaved)"""
+    for order in ("reversed", "shuffled"):
+        seq = list(reversed(pool)) if order == "reversed" else rng.sample(pool, len(pool))
+        for tag, D, G1 in seq:
+            w = monitored(definition_to_bytes, D)
+            ctx.count("write.after_other_writes")
+            if w.exc is not None or w.value != G1:
+                ctx.violation(f"{tag.split('/')[1]}/nondeterministic/after-other-writes",
+                              f"definition {tag} written again after other definitions were written gives different bytes"
+                              + (f" ({w.exc!r})" if w.exc is not None else ""),
+                              {"doc": tag, "order": order, "first_diff": first_diff(G1, w.value) if w.exc is None else None})
+                return
 
 
 def bundled(ctx):
